@@ -332,6 +332,7 @@ def plan(tier):
     for a in range(len(HDR_TOKENS)):
         units.append(('hdr-strings', a, L))
     units.append(('stream-kinds',))
+    units.append(('attr-options',))
     R = 6 if tier == 'quick' else 7
     for a in range(len(RAW)):
         for b in range(len(RAW)):
@@ -464,6 +465,62 @@ def check_stream_kind(data, kind):
     return v
 
 
+def attribute_names():
+    """Every attribute name of the object-model section classes (computed
+    from the classes): a header option called like one of them is an
+    option, not an attribute."""
+    from pydiffx.dom import objects
+    names = set()
+    for cname in dir(objects):
+        c = getattr(objects, cname)
+        if isinstance(c, type) and issubclass(c, objects.BaseDiffXSection):
+            for k in c.__mro__:
+                names |= set(vars(k))
+                names |= set(getattr(k, '__slots__', ()))
+    names |= {'self', 'cls', 'parent_section', 'attrs', 'kwargs'}
+    ok = re.compile(r'[A-Za-z][A-Za-z0-9_-]*$')
+    return sorted(n for n in names if ok.match(n))
+
+
+def check_attr_option(name, value, where):
+    """A well-formed file with one extra option on a container header: the
+    loader returns a sane tree or raises one of the library's errors."""
+    from mc.domsnap import fsnap
+    hdr = {'diffx': b'#diffx: encoding=utf-8, version=1.0',
+           'change': b'#.change:', 'file': b'#..file:'}[where]
+    data = (b'#diffx: encoding=utf-8, version=1.0\n'
+            b'#.preamble: indent=2, length=4\n  p\n'
+            b'#.change:\n#..preamble: length=2\nc\n'
+            b'#..file:\n#...meta: format=json, length=11\n{"a": "x"}\n'
+            b'#...diff: length=2\na\n')
+    opt = ('%s=%s' % (name, value)).encode('ascii')
+    new = hdr + (b', ' if b' ' in hdr else b' ') + opt
+    data = data.replace(hdr, new, 1)
+    try:
+        t = DiffX.from_bytes(data)
+    except BaseDiffXError:
+        return []
+    except Exception as e:
+        return [('dom-raised:%s:%s:attribute-named-option'
+                 % (type(e).__name__, site_of(e)),
+                 'header %r: %r' % (new, e))]
+    v = []
+    try:
+        s1 = fsnap(t)
+        nch = len(t.changes)
+        nf = [len(c.files) for c in t.changes]
+        texts = (t.preamble, [c.preamble for c in t.changes])
+    except Exception as e:
+        return [('dom-tree-corrupt:attribute-named-option',
+                 'header %r loaded, but the tree cannot be walked: %r'
+                 % (new, e))]
+    if nch != 1 or nf != [1] or texts != ('p\n', ['c\n']):
+        v.append(('dom-tree-altered-by-option:%s' % where,
+                  'header %r changed the tree: %d changes, files %r, '
+                  'preambles %r' % (new, nch, nf, texts)))
+    return v
+
+
 def kind_inputs(tier):
     out = []
     for name, data in base_files(tier):
@@ -481,6 +538,26 @@ def kind_inputs(tier):
 def run_unit(unit, tier):
     acc = Acc()
     signal.signal(signal.SIGALRM, _alarm)
+    if unit[0] == 'attr-options':
+        names = attribute_names()
+        for name in names:
+            for value in ('x', '3', 'utf-8'):
+                for where in ('diffx', 'change', 'file'):
+                    viols = check_attr_option(name, value, where)
+                    acc.evals += 1
+                    acc.states += 1
+                    acc.transitions += 1
+                    acc.validated += 1
+                    acc.nontrivial += 1
+                    for key, msg in viols:
+                        acc.violation(key, msg, {'kind': 'attr-option',
+                                                 'name': name,
+                                                 'value': value,
+                                                 'where': where})
+                    acc.outcome('ok' if not viols else 'violation')
+        acc.sample({'attribute_named_options': names[:12],
+                    'count': len(names)}, 1)
+        return acc
     if unit[0] == 'stream-kinds':
         for name, data in kind_inputs(tier):
             for kind in STREAM_KINDS:
@@ -617,6 +694,9 @@ def _run_unit_body(unit, tier, acc, one):
 
 
 def replay(payload):
+    if payload.get('kind') == 'attr-option':
+        return [{'key': k, 'msg': m} for k, m in check_attr_option(
+            payload['name'], payload['value'], payload['where'])]
     if payload.get('kind') == 'stream-kind':
         return [{'key': k, 'msg': m} for k, m in check_stream_kind(
             from_jsonable(payload['data']), payload['stream'])]
